@@ -134,6 +134,14 @@ func (c *verCase) changes(db *sql.DB, t, from, to string, prep func(*fakes3.Clie
 	if err != nil {
 		return nil, err
 	}
+	// the same table as the inner loop of a join: SQLite scans the cursor once per outer row, and every
+	// scan has to return all of the rows again (F47). Only without an injected fault plan.
+	if prep == nil {
+		j, jerr := sqlh.Query(db, fmt.Sprintf(`select count(*) from (select 1 as x union all select 2 union all select 3) o cross join "%s"`, cn))
+		if jerr != nil || len(j) != 1 || j[0][0] != fmt.Sprintf("I:%d", 3*len(rows)) {
+			c.fail(fmt.Sprintf("s3db_changes(from=%s,to=%s) returns %d rows when scanned once, but a join that scans it 3 times counts %v (err %v)", from, to, len(rows), j, jerr))
+		}
+	}
 	return sqlh.SortedRows(rows), nil
 }
 
@@ -349,7 +357,7 @@ func verCmd(args []string) int {
 	fs.Parse(args)
 	setKnown(*kn)
 	st := NewStats("ver", *seed)
-	st.Rule = "histories of 6-20 steps by 1-3 writers (inserts, updates, deletes, re-inserts, transactions, no-op statements, refreshes that merge); s3db_version() asked inside a writing transaction must decline or name the rows visible right then; s3db_version() and the rows are recorded after every step including the empty table; at later steps earlier versions are re-read through a restricted read-only open (Go API) and through s3db_changes(from='[]'); s3db_changes is then queried for ordered pairs of snapshots and checked for soundness and completeness against the recorded rows, and every 5th pair is re-run with a single failing request (transport error, expired context, or a NoSuchKey answer) at EVERY request index; distinct = distinct history (all non-trivial)"
+	st.Rule = "histories of 6-20 steps by 1-3 writers (inserts, updates, deletes, re-inserts, transactions, no-op statements, refreshes that merge); s3db_version() asked inside a writing transaction must decline or name the rows visible right then; s3db_version() and the rows are recorded after every step including the empty table; at later steps earlier versions are re-read through a restricted read-only open (Go API) and through s3db_changes(from='[]'); s3db_changes is then queried for ordered pairs of snapshots (also as the inner table of a join, which scans its cursor three times) and checked for soundness and completeness against the recorded rows, and every 5th pair is re-run with a single failing request (transport error, expired context, or a NoSuchKey answer) at EVERY request index; distinct = distinct history (all non-trivial)"
 	isChild, from, to := childRange()
 	if !isChild {
 		NewEmitter(*outp+".ops", *outp+".exp").Close()
